@@ -46,6 +46,7 @@ type Pipe struct {
 	avail    int32 // mirrors len(buf): read lock-free by the scheduler
 	eof      int32 // writer closed / cut reached
 	rdClosed int32 // reader side closed locally
+	wrClosed int32 // writer side closed locally (Conn.Close): writes fail with ErrClosed
 
 	Total    int64 // bytes accepted from the writer
 	Consumed int64 // bytes handed to the reader
@@ -69,6 +70,13 @@ type Pipe struct {
 	ShortAt   int // write-call index that returns n < len(p), nil error (-1: none)
 	ShortN    int
 	WErrStick bool // all later writes fail too
+	RErrStick bool // all later reads fail too (a failed transport stays failed)
+
+	RErrFired    bool
+	RErrConsumed int64 // bytes handed to the reader up to and including the failing read
+	WFaultFired  bool
+	WFaultTotal  int64 // bytes accepted up to and including the failing / short write
+	WFaultCall   int
 
 	St Stats
 }
@@ -78,7 +86,9 @@ func NewPipe(name string, s *kernel.Sched, tape *kernel.Tape) *Pipe {
 }
 
 //go:norace
-func (p *Pipe) Ready() bool { return p.avail > 0 || p.eof != 0 || p.rdClosed != 0 || p.RErrAt == p.St.Reads }
+func (p *Pipe) Ready() bool {
+	return p.avail > 0 || p.eof != 0 || p.rdClosed != 0 || p.RErrAt == p.St.Reads || (p.RErrStick && p.RErrFired)
+}
 
 // Avail is the number of deposited, not yet consumed bytes.
 //
@@ -148,6 +158,9 @@ func (p *Pipe) Read(b []byte) (int, error) {
 	if p.rdClosed != 0 {
 		return 0, ErrClosed
 	}
+	if p.RErrStick && p.RErrFired {
+		return 0, p.RErr
+	}
 	if idx == p.RErrAt {
 		n := p.RErrN
 		if n > len(p.buf) {
@@ -159,6 +172,8 @@ func (p *Pipe) Read(b []byte) (int, error) {
 		copy(b, p.buf[:n])
 		p.consume(n)
 		p.St.ReadErrs++
+		p.RErrFired = true
+		p.RErrConsumed = p.Consumed
 		return n, p.RErr
 	}
 	if len(p.buf) == 0 {
@@ -190,6 +205,9 @@ func (p *Pipe) consume(n int) {
 func (p *Pipe) deposit(b []byte) {
 	p.mu.Lock()
 	defer p.mu.Unlock()
+	if p.eof != 0 && p.CutAt < 0 {
+		return // stream already ended: nothing is accepted any more
+	}
 	if p.Record {
 		p.Wire = append(p.Wire, b...)
 		p.WriteEnd = append(p.WriteEnd, len(p.Wire))
@@ -207,9 +225,6 @@ func (p *Pipe) deposit(b []byte) {
 			p.St.Cuts++
 		}
 	}
-	if p.eof != 0 && p.CutAt < 0 {
-		return
-	}
 	p.buf = append(p.buf, b...)
 	p.avail = int32(len(p.buf))
 }
@@ -222,6 +237,9 @@ func (p *Pipe) Write(b []byte) (int, error) {
 	}
 	idx := p.St.Writes
 	p.St.Writes++
+	if p.wrClosed != 0 {
+		return 0, ErrClosed
+	}
 	if p.eof != 0 && p.CutAt < 0 {
 		return 0, ErrPeerGone
 	}
@@ -237,6 +255,9 @@ func (p *Pipe) Write(b []byte) (int, error) {
 			p.deposit(b[:n])
 		}
 		p.St.WriteErrs++
+		if !p.WFaultFired {
+			p.WFaultFired, p.WFaultTotal, p.WFaultCall = true, p.Total, idx
+		}
 		return n, p.WErr
 	}
 	if idx == p.ShortAt {
@@ -251,12 +272,21 @@ func (p *Pipe) Write(b []byte) (int, error) {
 			p.deposit(b[:n])
 		}
 		p.St.Shorts++
+		if !p.WFaultFired {
+			p.WFaultFired, p.WFaultTotal, p.WFaultCall = true, p.Total, idx
+		}
 		return n, nil
 	}
 	// A write may reach the peer in several segments, with the peer able to run
 	// in between.
 	rest := b
 	for len(rest) > 0 {
+		if p.wrClosed != 0 {
+			return len(b) - len(rest), ErrClosed
+		}
+		if p.eof != 0 && p.CutAt < 0 {
+			return len(b) - len(rest), ErrPeerGone
+		}
 		n := p.segLen(p.WSeg, len(rest))
 		p.deposit(rest[:n])
 		rest = rest[n:]
@@ -331,16 +361,7 @@ func NewDuplex(s *kernel.Sched, tape *kernel.Tape, an, bn string) (a, b *Conn) {
 }
 
 func (c *Conn) Read(b []byte) (int, error) { return c.In.Read(b) }
-func (c *Conn) Write(b []byte) (int, error) {
-	if c.closed {
-		if t := c.Out.task(); t != nil {
-			t.Yield("pre-write:" + c.Out.Name)
-		}
-		c.Out.St.Writes++
-		return 0, ErrClosed
-	}
-	return c.Out.Write(b)
-}
+func (c *Conn) Write(b []byte) (int, error) { return c.Out.Write(b) }
 
 func (c *Conn) Close() error {
 	if c.YieldOnClose {
@@ -352,6 +373,7 @@ func (c *Conn) Close() error {
 		return ErrClosed
 	}
 	c.closed = true
+	c.Out.wrClosed = 1
 	c.Out.CloseWrite()
 	c.In.CloseRead()
 	if c.OnClose != nil {
